@@ -201,6 +201,10 @@ func (p *provider) ruleSetsUpdated(ruleSets []*rule_config.RuleSet, state Bucket
 	removedIDs := slicex.Subtract(oldIDs, currentIDs)
 	newIDs := slicex.Subtract(currentIDs, oldIDs)
 
+	// a rule set, which cannot be applied, must not prevent the
+	// other rule sets of the bucket from being applied
+	var errs error
+
 	for _, ID := range removedIDs {
 		conf := &rule_config.RuleSet{
 			MetaData: rule_config.MetaData{
@@ -210,7 +214,9 @@ func (p *provider) ruleSetsUpdated(ruleSets []*rule_config.RuleSet, state Bucket
 		}
 
 		if err := p.p.OnDeleted(conf); err != nil {
-			return err
+			errs = errors.Join(errs, err)
+
+			continue
 		}
 
 		delete(state, ID)
@@ -239,13 +245,15 @@ func (p *provider) ruleSetsUpdated(ruleSets []*rule_config.RuleSet, state Bucket
 		}
 
 		if err != nil {
-			return err
+			errs = errors.Join(errs, err)
+
+			continue
 		}
 
 		state[ruleSet.Source] = ruleSet.Hash
 	}
 
-	return nil
+	return errs
 }
 
 func (p *provider) getBucketState(key string) BucketState {
